@@ -41,6 +41,17 @@ func buildMatcher(m *MatcherX) mux.Matcher {
 				ms[i] = mux.MatcherFunc(func(*http.Request, *types.Context) bool { return true })
 			}
 		}
+		// growth: combinations whose first member is a Hosts matcher are built through the function variants
+		if len(m.Ms) > 0 && m.Ms[0].T == "hosts" {
+			fs := make([]func(*http.Request, *types.Context) bool, len(ms))
+			for i := range ms {
+				fs[i] = ms[i].Match
+			}
+			if m.T == "and" {
+				return mux.AndMatcherFunc(fs...)
+			}
+			return mux.OrMatcherFunc(fs...)
+		}
 		if m.T == "and" {
 			return mux.AndMatcher(ms...)
 		}
